@@ -2,7 +2,7 @@
 from __future__ import annotations
 
 from vlib.core import Check
-from vlib.hist_subjects import enumerate_histories, histories, run_history
+from vlib.hist_subjects import det_race, enumerate_histories, histories, run_history
 
 PROPERTY_ID = "C22"
 LEVEL = "exploration"
@@ -24,13 +24,21 @@ RULE = (
     "Non-trivial: some subscription's replay is a strict, non-empty subset of the values emitted so far, or a re-entrant "
     "emission was made. "
     "A third check (falsy_error, run last) repeats short histories in which on_error is given a valid exception object whose "
-    "truth value is False (it defines __len__ == 0). Distinct = distinct case JSON."
+    "truth value is False (it defines __len__ == 0). hist_clock / hist_enum: the same histories on a HistoricalScheduler (datetime clock, 1 tick = 1 ms, window given as a "
+    "timedelta). default_sched: ReplaySubject(buffer_size) without scheduler argument (current-thread trampoline, window None): every "
+    "command is drained before it returns, same model. det: Engine DET, thread A subscribe(recorder) || thread B 1-2 emitting calls "
+    "on a scheduler-less ReplaySubject that already holds 0-2 values, all schedules with <=1 preemption (<=2 for the three smallest programs in thorough); the "
+    "subscriber's list must be the sequential model's list for SOME position of its subscribe (replay first, then later notifications, "
+    "no duplicate, no reordering). Distinct = distinct case JSON."
 )
 ASSUMPTIONS = [
     "window and clock are integer ticks on a TestScheduler; 'within the window' is inclusive (age == window is retained), as in ReplaySubject._trim",
     "notifications already queued for a subscriber when the subject is disposed are still delivered (they were emitted before dispose)",
     "the order in which one drain serves different subscribers is not part of the property; in-callback unsubscribe-other therefore only targets plain/unsubscribe-self observers and is judged by the prefix rule",
     "cases reaching 90 scheduler actions in one drain are discarded as inconclusive (spin guard, C29's business)",
+    "default_sched / det: without a scheduler argument the subject delivers on the current-thread trampoline, so every command is fully drained before it returns; only window None is used there (wall clock)",
+    "det: one emitting thread only (concurrent emitters break the Rx serialisation contract); line-level interleaving, CPython GIL atomicity",
+    "handlers that raise are not exercised here (a raising handler faults the per-subscriber ScheduledObserver and escapes into the scheduler: C32's subject)",
 ]
 
 _ALPHABET = [
@@ -69,8 +77,40 @@ _RE_ALPHABET = [
 
 
 def _re_enum(tier):
+    if tier == "quick":
+        return enumerate_histories(_RE_ALPHABET, [{"buf": None, "win": None}, {"buf": 1, "win": 0}], 4)
     cfgs = [{"buf": b, "win": w} for b in (None, 1) for w in (None, 0)]
-    return enumerate_histories(_RE_ALPHABET, cfgs, 4 if tier == "quick" else 6)
+    return enumerate_histories(_RE_ALPHABET, cfgs, 6)
+
+
+def _hist_enum(tier):
+    """The main alphabet again on the datetime clock (HistoricalScheduler, timedelta windows)."""
+    cfgs = [{"buf": b, "win": w, "clock": "hist"} for b in (None, 1) for w in (None, 0, 1)]
+    return enumerate_histories(_ALPHABET, cfgs, 3 if tier == "quick" else 5)
+
+
+_DET_PROGRAMS = [
+    (None, [["next", "i3"]], [["next", "i0"]]),
+    (1, [["next", "i3"]], [["next", "i0"], ["next", "none"]]),
+    (1, [["next", "i3"]], [["next", "i0"], ["completed"]]),
+    (0, [], [["next", "i0"], ["next", "i1"]]),
+    (2, [["next", "i3"], ["next", "none"]], [["next", "i0"], ["error", "e1"]]),
+]
+
+
+def _det_cases(tier):
+    def case(buf, before, emits, pre, first, K):
+        return {"kind": "replay", "cfg": {"buf": buf, "clock": "default"}, "before": before, "emits": emits, "pre": pre, "first": first, "K": K}
+
+    for buf, before, emits in _DET_PROGRAMS:
+        for first in ("sub", "emit"):
+            for pre in ((1,) if tier == "quick" else (0, 1, 2)):
+                yield case(buf, before, emits, pre, first, 1)
+    if tier != "quick":
+        # a run has ~400-900 yield points here, so two preemptions are affordable only for the smallest programs
+        for buf, before, emits in [(0, [], [["next", "i0"]]), (1, [["next", "i3"]], [["next", "none"]]), (None, [], [["completed"]])]:
+            for first in ("sub", "emit"):
+                yield case(buf, before, emits, 0, first, 2)
 
 
 def checks(tier):
@@ -80,6 +120,10 @@ def checks(tier):
         Check("gen", _run, strategy=histories("replay", n), examples={"quick": 3200, "thorough": 16 * 20000}, shards={"quick": 8, "thorough": 16}),
         Check("reentrant_enum", _run, cases=_re_enum, shards={"quick": 8, "thorough": 16}, exhaustive=True),
         Check("reentrant", _run, strategy=histories("replay", n, reentrant=True), examples={"quick": 1600, "thorough": 16 * 8000}, shards={"quick": 8, "thorough": 16}),
+        Check("hist_enum", _run, cases=_hist_enum, shards={"quick": 8, "thorough": 16}, exhaustive=True),
+        Check("hist_clock", _run, strategy=histories("replay", n, clock="hist"), examples={"quick": 800, "thorough": 16 * 8000}, shards={"quick": 8, "thorough": 16}),
+        Check("default_sched", _run, strategy=histories("replay", n, clock="default"), examples={"quick": 800, "thorough": 16 * 8000}, shards={"quick": 8, "thorough": 16}),
+        Check("det", det_race, cases=_det_cases, shards={"quick": 8, "thorough": 16}, exhaustive=True),
         # last on purpose: a failure here must not cut the two searches above short
         Check("falsy_error", _run, strategy=histories("replay", 12, falsy_error=True), examples={"quick": 400, "thorough": 16 * 1000}, shards={"quick": 1, "thorough": 16}),
     ]
